@@ -22,6 +22,11 @@
 static mpq_QSdata *P = NULL;
 static QSbasis *KEPT = NULL;	/* basis remembered by KEEPBASIS */
 
+static void trace_cb (int event, int level, int value)
+{
+	printf ("TRACE %d %d %d\n", event, level, value);
+}
+
 static QSbasis *mk_basis (const char *cs, const char *rs)
 {
 	QSbasis *B = (QSbasis *) calloc (1, sizeof (QSbasis));
@@ -77,6 +82,9 @@ int main (int argc, char **argv)
 	(void) argc; (void) argv;
 	QSexactStart ();
 	if (quiet_log) QSlog_set_handler (qsx_log_sink, NULL);
+#ifdef QSX_VERIF
+	qsx_trace_cb = trace_cb;
+#endif
 	printf ("M "); mpq_out_str (stdout, 10, mpq_ILL_MAXDOUBLE); putchar ('\n');
 	while (qsx_next (in))
 	{
